@@ -128,7 +128,20 @@ func runBytes(carrier, mode string, n, part int, seed uint64) (string, string) {
 	} else if mode == "down" {
 		tmode = fmt.Sprintf("source:%d:%d", n, seed)
 	}
-	rig, err := NewRig(RigOpts{Carrier: carrier, Channels: map[string]string{"echo": tmode}, Insecure: true})
+	chans := map[string]string{"echo": tmode}
+	if strings.HasSuffix(carrier, "+multi") {
+		// the endpoint serves several channels; the application's channel is neither the first nor the last of the table
+		// and every channel has a target of its own (the others would write different bytes)
+		carrier = strings.TrimSuffix(carrier, "+multi")
+		other := func(k uint64) string {
+			if mode == "down" {
+				return fmt.Sprintf("source:%d:%d", n, seed+k)
+			}
+			return tmode
+		}
+		chans = map[string]string{"aaa": other(1), "echo": tmode, "mmm": other(2), "zzz": other(3)}
+	}
+	rig, err := NewRig(RigOpts{Carrier: carrier, Channels: chans, Insecure: true})
 	if err != nil {
 		return "fail:rig", err.Error()
 	}
@@ -284,6 +297,11 @@ func (bytesComp) Gen(r *Rand, tier string, emit func(string)) {
 			}
 		}
 	}
+	// several channels behind one endpoint: the bytes reach the target of the channel that was asked for
+	emit(fmt.Sprintf("tcp+multi echo 5000 0 %d", r.Next()%1000))
+	emit(fmt.Sprintf("tcp+multi up 40000 1000 %d", r.Next()%1000))
+	emit(fmt.Sprintf("ws+multi down 40000 0 %d", r.Next()%1000))
+	emit(fmt.Sprintf("stdio+multi echo 300 0 %d", r.Next()%1000))
 	// debug mode of the copy loops (SOCKETACE_PIPE_DEBUG=1)
 	emit(fmt.Sprintf("tcp+dbg echo 204800 0 %d", r.Next()%1000))
 	emit(fmt.Sprintf("tcp+dbg up 65537 1000 %d", r.Next()%1000))
